@@ -307,7 +307,7 @@ def run(ck, F):
     R9 = ck.rule('C19.table-index-bounded', 'every subscript of an array of fixed extent N in the library (built-in arrays and std::array; '
                  'tables of constants, the arms of a tree node) is a constant below N, a value of an enumeration all of whose enumerators '
                  'are below N, or the element of a range-for: an index computed from data (a bit position, a count) without a bound reads '
-                 'past the table', floor=5)
+                 'past the table', floor=3)
     import re as _re
     FLEX = {('ipr::util::string', 'data'): 'the inline bytes of a string header continue into the following arena granules by design; '
             'their bound is what C19.arena-bounds / C19.arena-writes-in-bounds decide'}
